@@ -93,7 +93,11 @@ fn mark_tail_calls(
         }
         ret
     } else {
-        tail
+        // Not rewritten: the form keeps its own metadata. It is not written
+        // to, because it may be under evaluation (and borrowed) right now,
+        // when a function's last form leads to the function being redefined.
+        ret.push(tail)?;
+        return Ok(ret);
     };
     ret.push(new_tail.with_ctxobj(ctxobj).with_span(span))?;
     Ok(ret)
